@@ -89,13 +89,14 @@ type CliOpt struct {
 	Verify    *transport.VerifyConfig
 	ServerKEM *keys.KEMPublicKey // non-nil selects the hidden handshake
 	HSTimeout time.Duration
+	MaxBuffered int
 }
 
 // NewClient creates a client (handshake not started).
 func (w *World) NewClient(addr, server *net.UDPAddr, o CliOpt) *Cli {
 	ep := w.Net.Listen(addr)
 	cfg := transport.ClientConfig{Exchanger: o.Ident.Key, Leaf: o.Ident.Leaf, Intermediate: o.Ident.Inter,
-		Verify: *o.Verify, ServerKEMKey: o.ServerKEM, HSTimeout: o.HSTimeout}
+		Verify: *o.Verify, ServerKEMKey: o.ServerKEM, HSTimeout: o.HSTimeout, MaxBufferedPackets: o.MaxBuffered}
 	c := &Cli{W: w, T: transport.NewClient(ep, server, cfg), EP: ep, Ident: o.Ident, fin: make(chan struct{})}
 	w.Clients = append(w.Clients, c)
 	return c
@@ -215,3 +216,76 @@ func vhostCallbacks(o SrvOpt) (func(transport.ClientHandshakeInfo) (*transport.C
 	}
 	return get, all
 }
+
+// RunHandshake drives an honest handshake of c with s hop by hop until the client finishes.
+func (w *World) RunHandshake(c *Cli, s *Srv) error {
+	c.Start()
+	for hop := 0; hop < 8; hop++ {
+		if err := c.WaitStep(); err != nil {
+			return err
+		}
+		out := w.Net.TakeFrom(c.EP)
+		if done, err := c.Finished(); done {
+			for _, d := range out { // the last client message (ClientAuth) still has to reach the server
+				if e := s.EP.Deliver(d.Data, d.From, StepTimeout); e != nil {
+					return e
+				}
+			}
+			return err
+		}
+		if len(out) == 0 {
+			return fmt.Errorf("handshake stalled")
+		}
+		for _, d := range out {
+			if err := s.EP.Deliver(d.Data, d.From, StepTimeout); err != nil {
+				return err
+			}
+		}
+		for _, d := range w.Net.TakeFrom(s.EP) {
+			c.EP.Inject(d.Data, d.From)
+		}
+	}
+	if err := c.WaitStep(); err != nil {
+		return err
+	}
+	_, err := c.Finished()
+	return err
+}
+
+// Pair is an established client/server pair.
+type Pair struct {
+	W   *World
+	S   *Srv
+	C   *Cli
+	H   *transport.Handle
+	PKI *PKI
+}
+
+// NewPair builds a world with one honest server and one honest client and completes the handshake.
+func NewPair(p *PKI, sid, cid *Ident, hidden bool, maxBuffered int) (*Pair, error) {
+	w := NewWorld()
+	sa := simwireAddr("10.0.0.1", 77)
+	var kem *keys.KEMKeyPair
+	if hidden {
+		kem = NewKEM()
+	}
+	s := w.NewServer(sa, SrvOpt{Ident: sid, KEM: kem, Hidden: hidden, MaxBuffered: maxBuffered})
+	opt := CliOpt{Ident: cid, Verify: p.Policy("store", "a.example")}
+	if hidden {
+		opt.ServerKEM = &kem.Public
+	}
+	opt.MaxBuffered = maxBuffered
+	c := w.NewClient(simwireAddr("10.0.1.1", 1001), sa, opt)
+	if err := w.RunHandshake(c, s); err != nil {
+		w.Close()
+		return nil, err
+	}
+	h, err := s.T.AcceptTimeout(time.Second)
+	if err != nil {
+		w.Close()
+		return nil, err
+	}
+	return &Pair{W: w, S: s, C: c, H: h, PKI: p}, nil
+}
+
+func simwireAddr(ip string, port int) *net.UDPAddr { return simwire.Addr(ip, port) }
